@@ -442,7 +442,28 @@ func genAggregation(g *genState, prop string) {
 	}
 	rounds := 1 + r.Intn(4)
 	for i := 0; i < rounds; i++ {
-		switch r.Pick(8, 2, 1, 2, 1, 1) {
+		switch r.Pick(8, 2, 1, 2, 1, 1, 1) {
+		case 6:
+			// own observation, some signatures, then faster peers' finished VAA arrives and a cleanup
+			// pass runs a few seconds later - well inside the settlement window - before the missing
+			// signatures come in: the node still completes and publishes its own VAA
+			m := g.pickMsg()
+			set := g.curSet()
+			g.add("msg", m, 0, 0, 0, "")
+			g.add("loop", 0, 0, 0, 0, "")
+			half := len(set) / 3
+			for i, k := range set {
+				if i < half {
+					g.add("obs", int64(k), m, 0, 0, "")
+				}
+			}
+			g.add("vaa", m, -1, 0, int64(r.Intn(19))<<2, "")
+			g.add("tick", int64(r.Range(2, 25))*int64(time.Second), 1, 0, 0, "")
+			for i, k := range set {
+				if i >= half {
+					g.add("obs", int64(k), m, 0, 0, "")
+				}
+			}
 		case 5:
 			// a message is published; some minutes later (well inside the hour for which a published
 			// entry is remembered) the whole network re-observes it and every guardian signs again
